@@ -1,7 +1,9 @@
 #!/bin/bash
-# usage: coq_goals.sh <file.v> <line> [extra tactics] : shows the goals after the given line
+# usage: coq_goals.sh <file.v> <line> [extra tactics] [tail lines] : shows the goals after the given line
+# (run from the coq directory being worked in; COQDIR overrides /verif/coq)
 F=$1; N=$2; X=${3:-}
-head -n "$N" "$F" > /var/tmp/_goals.v
+D=${COQDIR:-/verif/coq}
+head -n "$N" "$D/$F" > /var/tmp/_goals.v
 echo "$X" >> /var/tmp/_goals.v
 echo "Show." >> /var/tmp/_goals.v
-cd /verif/coq && timeout 120 coqtop -Q . DF -batch -load-vernac-source /var/tmp/_goals.v 2>&1 | tail -${4:-60}
+cd "$D" && timeout 120 coqtop -Q . DF -batch -load-vernac-source /var/tmp/_goals.v 2>&1 | tail -${4:-60}
